@@ -71,6 +71,14 @@ def _par_work(i):
     engine.run_in_big_stack(go)
     tot, used, enc = ctx.totals()
     ctx.interps.clear()
+    # confirm natively here, where the violation still carries its native-check closure and solver model
+    if rep.violations:
+        from mirsmt import replay as _replay
+        try:
+            _replay.confirm(rep, tag='w%d' % i)
+        except Exception as ex:      # noqa
+            for v in rep.violations:
+                v.setdefault('replay_note', 'native confirmation failed: ' + str(ex)[:200])
     table = None
     for v in rep.violations:
         try:
@@ -100,6 +108,12 @@ def run_parallel(ctx, report, fn, items, nproc=None):
     import os
     _PG.update(ctx=ctx, fn=fn, items=items, pid=report.pid)
     nproc = nproc or int(os.environ.get('VERIF_JOBS', '14'))
+    from mirsmt import replay as _replay
+    for prof in ('debug', 'release'):
+        try:
+            _replay.vreplay_bin(prof)            # build once, before forking
+        except common.Inconclusive:
+            pass
     with mp.get_context('fork').Pool(min(nproc, max(1, len(items)))) as pool:
         results = pool.map(_par_work, range(len(items)), chunksize=1)
     agg = {'steps': 0, 'queries': 0, 'qtime': 0.0, 'forks': 0, 'calls_interpreted': 0, 'calls_modelled': 0}
